@@ -45,9 +45,9 @@ PROPS = ("C16",)
 NEEDS_PEER = ()
 
 OPTS = ("skip", "sort", "explorer", "test", "idx", "dialect")
-SER = ("as_dict", "to_json", "to_msgpck", "to_yaml")
+SER = ("as_dict", "to_json", "to_msgpck", "to_yaml", "to_jsonb")
 DESER = ("as_obj", "from_json", "from_msgpck", "from_yaml")
-PAIR = {"as_dict": "as_obj", "to_json": "from_json", "to_msgpck": "from_msgpck", "to_yaml": "from_yaml"}
+PAIR = {"as_dict": "as_obj", "to_json": "from_json", "to_msgpck": "from_msgpck", "to_yaml": "from_yaml", "to_jsonb": "from_json"}
 
 
 class PDialect(Dialect):
@@ -87,6 +87,8 @@ def call_ser(o: Any, m: str, opts: list[str]) -> Any:
         return o.as_dict(mashumaro_dialect=dia, serialization_options=so)
     if m == "to_json":
         return o.to_json(serialization_options=so)
+    if m == "to_jsonb":
+        return o.to_jsonb(indent=bool(so and len(so) % 2), serialization_options=so)
     if m == "to_msgpck":
         return o.to_msgpck(serialization_options=so)
     if m == "to_yaml":
@@ -110,7 +112,7 @@ def call_deser(cls: Any, data: Any, m: str, opts: list[str]) -> Any:
 def to_doc(data: Any, m: str) -> Any:
     if m in ("as_dict", "as_obj"):
         return data
-    if m in ("to_json", "from_json"):
+    if m in ("to_json", "from_json", "to_jsonb"):
         return orjson.loads(data)
     if m in ("to_msgpck", "from_msgpck"):
         return msgpack.unpackb(data, raw=False)
@@ -120,7 +122,7 @@ def to_doc(data: Any, m: str) -> Any:
 def from_doc(doc: Any, m: str) -> Any:
     if m in ("as_dict", "as_obj"):
         return doc
-    if m in ("to_json", "from_json"):
+    if m in ("to_json", "from_json", "to_jsonb"):
         return orjson.dumps(doc)
     if m in ("to_msgpck", "from_msgpck"):
         return msgpack.packb(doc, use_bin_type=True)
